@@ -88,11 +88,11 @@ Json::Value gen() {
     addHookScript(id);
   }
   sc["config"] = cfg;
-  int ndrop = W({50, 35, 15});
+  int ndrop = W({40, 25, 20, 15});
   for (int d = 0; d < ndrop; d++) {
     Json::Value unit(Json::objectValue);
     unit["tag"] = "drop" + std::to_string(d);
-    int nh = R(1, 2);
+    int nh = W({50, 35, 15}) + 1;
     for (int h = 0; h < nh; h++) {
       std::string id = "dh" + std::to_string(d) + "_" + std::to_string(h);
       unit["config"]["prekill_hooks"].append(hookJ(id, w0));
@@ -100,6 +100,29 @@ Json::Value gen() {
     }
     unit["config"]["rulesets"] = Json::Value(Json::arrayValue);
     sc["dropins"].append(unit);
+  }
+  // drop-ins are also taken away again (the older ones more often), and a tag
+  // may come back with other hooks: the priority order of what remains must
+  // be unaffected
+  if (ndrop >= 2 && P(50)) {
+    int nrm = R(1, 2);
+    for (int k = 0; k < nrm; k++) {
+      int d = P(60) ? 0 : R(0, ndrop - 1);
+      Json::Value rm(Json::objectValue);
+      rm["tag"] = "drop" + std::to_string(d);
+      rm["remove"] = true;
+      sc["dropins"].append(rm);
+      if (P(30)) {
+        Json::Value unit(Json::objectValue);
+        unit["tag"] = rm["tag"];
+        std::string id = "dh" + std::to_string(d) + "_r" + std::to_string(k);
+        unit["config"]["prekill_hooks"].append(hookJ(id, w0));
+        addHookScript(id);
+        unit["config"]["rulesets"] = Json::Value(Json::arrayValue);
+        sc["dropins"].append(unit);
+      }
+    }
+    sc["meta"]["dropin_removed"] = true;
   }
   sc["interval"] = 5;
   sc["devs"]["8:0"] = "ssd";
@@ -112,7 +135,7 @@ Json::Value gen() {
   Json::Value ticks(Json::arrayValue);
   for (int t = 0; t < nticks; t++) {
     Json::Value tick(Json::objectValue);
-    tick["adv_ms"] = R(1, 4) * 1000;
+    tick["adv_ms"] = R(1, 4) * 1000 + subsecMs();
     Json::Value ops(Json::arrayValue);
     if (t > 0) {
       // pgscan / io drift so that the rate based plugins have candidates
@@ -185,8 +208,26 @@ Verdict run(const Json::Value& sc) {
   }
   // priority order: drop-in units newest first, then base hooks
   std::vector<MHook> prio;
-  for (int d = (int)sc["dropins"].size() - 1; d >= 0; d--)
-    for (auto& h : sc["dropins"][d]["config"]["prekill_hooks"]) prio.push_back({h["args"]["id"].asString(), vpm::splitComma(h["args"]["cgroup"].asString())});
+  {
+    // units in the order they were added (a removal takes its unit out)
+    std::vector<std::pair<std::string, const Json::Value*>> units;
+    for (auto& d : sc["dropins"]) {
+      std::string tag = d["tag"].asString();
+      if (d.get("remove", false).asBool()) {
+        for (size_t i = 0; i < units.size();) {
+          if (units[i].first == tag) {
+            units.erase(units.begin() + i);
+          } else {
+            i++;
+          }
+        }
+      } else {
+        units.push_back({tag, &d});
+      }
+    }
+    for (int d = (int)units.size() - 1; d >= 0; d--)
+      for (auto& h : (*units[d].second)["config"]["prekill_hooks"]) prio.push_back({h["args"]["id"].asString(), vpm::splitComma(h["args"]["cgroup"].asString())});
+  }
   for (auto& h : sc["config"]["prekill_hooks"]) prio.push_back({h["args"]["id"].asString(), vpm::splitComma(h["args"]["cgroup"].asString())});
   auto firstMatching = [&](const std::string& path) -> std::string {
     for (auto& h : prio)
@@ -352,6 +393,7 @@ Verdict run(const Json::Value& sc) {
   }
   if (deferredThenFallbackFire || recreatedDuringWait) v.nontrivial = true;
   if (sawDeferred) v.labels.push_back("deferred");
+  if (sc["meta"].get("dropin_removed", false).asBool()) v.labels.push_back("dropin_removed");
   if (deferredThenFallbackFire) v.labels.push_back("deferred_fail_refire");
   if (recreatedDuringWait) v.labels.push_back("vanished_during_wait");
   return v;
